@@ -44,6 +44,9 @@ def gen_case(rng, m, tier):
             "sha1/i%d/s%d" % (min(it.bit_length(), 11), n // 8), it * 5e-6 + 0.001
     if m == "sunmd5":
         rk = r.choice([None, None, 1, 2, 10, 100, 999, 2000, r.randint(1, 2000)])
+        if r.random() < 0.05:
+            # what crypt_gensalt hands out (32768..98303) and the places where the decimal round number grows a digit
+            rk = r.choice([5903, 5904, 5905, 32768, 65535, 95903, 95904, 95905, 98303, 100000, r.randint(32768, 98303)])
         n = r.choice([0, 1, 4, 7, 8, 9, 16, 40])
         sep = r.choice([b"$", b","])
         rs = b"" if rk is None else b"rounds=%d$" % rk
@@ -115,6 +118,13 @@ def make_cases(seed, tier):
             if gen.cost_units(s, len(p)) > 400000:
                 continue
             cases.append((m, cls, p, s, sec * (1 + L / 100.0)))
+    # always present: cost spellings at the places where a counter grows a digit / leaves the usual range
+    rng = rt.rng_for(seed, PID, "fixed")
+    for m, s in (("sunmd5", b"$md5,rounds=95905$abcdefgh$"), ("sunmd5", b"$md5$rounds=100000$salt"),
+                 ("sunmd5", b"$md5,rounds=98303$x$"), ("sunmd5", b"$md5,rounds=5904$abcdefgh"),
+                 ("sha512crypt", b"$6$rounds=99999$saltsalt"), ("sha256crypt", b"$5$rounds=100000$saltsalt"),
+                 ("sha1crypt", b"$sha1$100000$saltsalt$"), ("bsdicrypt", b"_zzz1salt")):
+        cases.append((m, "fixed/" + m, gen.gen_phrase(rng, rng.choice([5, 20, 70])), s, 9.9))
     return cases
 
 
